@@ -5,7 +5,10 @@ namespace vf{
 
 static const double EPS = std::numeric_limits<double>::epsilon();
 static std::string famname(TasmanianSparseGrid const &g){
-    return g.isGlobal() ? "global" : g.isSequence() ? "sequence" : g.isLocalPolynomial() ? "localp" : g.isWavelet() ? "wavelet" : "fourier";
+    // Local polynomial grids whose hierarchy has missing parents (classic refinement, construction in progress) get their own key class:
+    // there the surplus computation and the transposed transform behind the weight routes are not transposes of each other (recorded finding)
+    if (g.isLocalPolynomial()) return (all_parents_loaded(g) == 0) ? "localp:incomplete-hierarchy" : "localp";
+    return g.isGlobal() ? "global" : g.isSequence() ? "sequence" : g.isWavelet() ? "wavelet" : "fourier";
 }
 
 // probe points: random interior points, grid nodes, and (local bases) points just inside / outside the reported supports
@@ -333,6 +336,13 @@ void mon_c04(CaseCtx &c, Rng &rng){
         if (!err.empty()){ c.viol("step-exception:" + s.name() + ":" + err.substr(0, err.find(':')), J().str("what", err).kv("step", s.json()).obj()); return; }
         if (h.g.getNumPoints() > 3 * go.max_points) break;
         if (!check_state(s.name())) return;
+        // a merge zeroes the values, which hides stale caches: follow it with a coefficient overwrite on the real object (not a copy) and look again
+        if (s.kind == Step::merge_ref && h.g.getNumOutputs() > 0 && rng.coin(0.8)){
+            Step s2; s2.kind = Step::set_coeffs; s2.subseed = rng.next();
+            std::string e2 = apply_step(h.g, s2, &h);
+            if (!e2.empty()){ c.viol("step-exception:set_coeffs:" + e2.substr(0, e2.find(':')), J().str("what", e2).obj()); return; }
+            if (!check_state("merge_ref+set_coeffs")) return;
+        }
     }
     c.count("states_checked", checked_states);
     std::string tr; for(auto const &t : h.trace) tr += t.substr(0, 3) + ".";
